@@ -1,1 +1,45 @@
 // verification drivers compiled inside the crate (hook H6); one inline module per driver
+#[allow(dead_code, unused_imports, clippy::all)]
+pub mod c02 {
+    include!("drivers/c02.rs");
+}
+#[allow(dead_code, unused_imports, clippy::all)]
+pub mod c03 {
+    include!("drivers/c03.rs");
+}
+#[allow(dead_code, unused_imports, clippy::all)]
+pub mod c04 {
+    include!("drivers/c04.rs");
+}
+#[allow(dead_code, unused_imports, clippy::all)]
+pub mod c09 {
+    include!("drivers/c09.rs");
+}
+#[allow(dead_code, unused_imports, clippy::all)]
+pub mod c10 {
+    include!("drivers/c10.rs");
+}
+#[allow(dead_code, unused_imports, clippy::all)]
+pub mod c12 {
+    include!("drivers/c12.rs");
+}
+#[allow(dead_code, unused_imports, clippy::all)]
+pub mod c13 {
+    include!("drivers/c13.rs");
+}
+#[allow(dead_code, unused_imports, clippy::all)]
+pub mod c16 {
+    include!("drivers/c16.rs");
+}
+#[allow(dead_code, unused_imports, clippy::all)]
+pub mod c18 {
+    include!("drivers/c18.rs");
+}
+#[allow(dead_code, unused_imports, clippy::all)]
+pub mod c19_rules {
+    include!("drivers/c19_rules.rs");
+}
+#[allow(dead_code, unused_imports, clippy::all)]
+pub mod e2e {
+    include!("drivers/e2e.rs");
+}
